@@ -20,7 +20,7 @@ macro_rules! blocks {
 }
 
 #[cfg(all(kani, any(feature = "c02", feature = "c20")))]
-#[path = "../../core/src/c02.rs"]
+#[path = "/verif/harness/core/src/c02.rs"]
 pub mod c02;
 
 #[cfg(all(kani, feature = "c20"))]
